@@ -28,6 +28,7 @@ import Cte.Model.PlacementWin
 import Cte.Model.Origins
 import Cte.Model.HulcAux
 import Cte.Model.BdlData
+import Cte.Model.ConvValues
 import Cte.Model.Pipeline
 import Cte.Gen.Schema
 open Cte
@@ -568,6 +569,26 @@ def opBdlData (req : J) : J :=
   | .err e => J.obj [("err", J.str e)]
   | .panic p => J.obj [("panic", J.str p)]
 
+/-- op `convvalues`: text → typed elements (`Data::new`) → the values the conversion gives to spaces, thermal bridges and windows -/
+def opConvValues (req : J) : J :=
+  let text := match req.get? "text" with | some (J.str s) => s | _ => ""
+  match BdlData.dataNew text.toList with
+  | .ok d =>
+    J.obj [("spaces", J.arr (d.spaces.map (fun s =>
+              let v := ConvV.convSpace s
+              J.obj [("name", DataIO.js v.name), ("z", DataIO.jt v.z), ("height", DataIO.jt v.height), ("inside_tenv", J.bool v.insideTenv),
+                     ("multiplier", DataIO.jt v.multiplier),
+                     ("kind", J.str (match v.kind with | .conditioned => "CONDITIONED" | .unconditioned => "UNCONDITIONED" | .uninhabited => "UNINHABITED")),
+                     ("n_v", DataIO.jot v.nV), ("illuminance", DataIO.jot v.illuminance)]))),
+           ("tbs", J.arr ((ConvV.convTbs d.tbs).map (fun t =>
+              J.obj [("name", DataIO.js t.name), ("kind", J.str t.kind.str), ("l", DataIO.jt t.l), ("psi", DataIO.jt t.psi)]))),
+           ("windows", J.arr (d.windows.map (fun w =>
+              let v := ConvV.convWindow w
+              J.obj [("name", DataIO.js v.name), ("x", DataIO.jt v.x), ("y", DataIO.jt v.y), ("width", DataIO.jt v.width),
+                     ("height", DataIO.jt v.height), ("setback", DataIO.jt v.setback)])))]
+  | .err e => J.obj [("err", J.str e)]
+  | .panic p => J.obj [("panic", J.str p)]
+
 /-- op `verdict`: blocks → typed elements → conversion skeleton on a BDL text (no catalogue) -/
 def opVerdict (req : J) : J :=
   let text := match req.get? "text" with | some (J.str s) => s | _ => ""
@@ -746,6 +767,7 @@ def handle (line : String) : String :=
       | some (J.str "kyg") => opKyg req
       | some (J.str "bdldata") => opBdlData req
       | some (J.str "verdict") => opVerdict req
+      | some (J.str "convvalues") => opConvValues req
       | some (J.str "tbl") => opTbl req
       | some (J.str "indicators") => withModel req (opIndicators req)
       | some (J.str "classify") => opClassify req
